@@ -8,12 +8,84 @@ package comet
 // each of the eight index kinds.
 
 import (
+	"bufio"
 	"bytes"
 	"fmt"
 	"io"
 	"sort"
 	"strings"
+
+	vos "github.com/wizenheimer/comet/internal/vrt/vos"
 )
+
+// vBackToBack: the stream written twice back to back, read through each concrete reader
+// type a caller may hand to ReadFrom (an *os.File, a *bufio.Reader, a *bytes.Buffer, a
+// *strings.Reader, an io.MultiReader, a one-byte-at-a-time reader): both copies must
+// decode from the same reader, one after the other, into two fresh indexes - a read
+// consumes exactly the index's own bytes whatever the reader's type.
+func (s *vSerSys) vBackToBack(cfgS string, h []string, stream []byte, want []vObs) {
+	twice := append(append([]byte(nil), stream...), stream...)
+	mem := vos.NewMemFS()
+	old := vos.FS
+	vos.FS = mem
+	defer func() { vos.FS = old }()
+	mem.WriteFileRaw("/c07/twice.bin", twice)
+	for _, rk := range []string{"os.File", "bufio.Reader", "bytes.Buffer", "strings.Reader", "io.MultiReader", "iotest.OneByteReader"} {
+		var r io.Reader
+		switch rk {
+		case "os.File":
+			f, err := vos.Open("/c07/twice.bin")
+			if err != nil {
+				panic(err)
+			}
+			r = f
+		case "bufio.Reader":
+			r = bufio.NewReaderSize(bytes.NewReader(twice), 16)
+		case "bytes.Buffer":
+			r = bytes.NewBuffer(append([]byte(nil), twice...))
+		case "strings.Reader":
+			r = strings.NewReader(string(twice))
+		case "io.MultiReader":
+			r = io.MultiReader(bytes.NewReader(twice[:len(stream)/2]), bytes.NewReader(twice[len(stream)/2:]))
+		default:
+			r = &vOneByteReader{r: bytes.NewReader(twice)}
+		}
+		for copyNo := 1; copyNo <= 2; copyNo++ {
+			s.c.Evaluations++
+			dst := s.k.fresh()
+			var n int64
+			var err error
+			func() {
+				defer func() {
+					if rec := recover(); rec != nil {
+						err = fmt.Errorf("panic: %v", rec)
+					}
+				}()
+				n, err = s.k.read(dst, r)
+			}()
+			if err != nil || int(n) != len(stream) {
+				s.c.Violation("read-consumed-wrong-amount", "back-to-back:"+rk, cfgS, h, fmt.Sprintf("copy %d of two back-to-back streams read through a %s: n=%d (stream %d bytes) err=%v", copyNo, rk, n, len(stream), err))
+				break
+			}
+			if d := vObsDiff(want, s.k.observe(dst)); d != "" {
+				s.c.Violation("reload-changed-answers", "back-to-back:"+rk, cfgS, h, fmt.Sprintf("copy %d read through a %s: %s", copyNo, rk, d))
+				break
+			}
+		}
+		if f, ok := r.(*vos.File); ok {
+			f.Close()
+		}
+	}
+}
+
+type vOneByteReader struct{ r io.Reader }
+
+func (o *vOneByteReader) Read(p []byte) (int, error) {
+	if len(p) == 0 {
+		return 0, nil
+	}
+	return o.r.Read(p[:1])
+}
 
 type vObs struct {
 	q   string
@@ -687,6 +759,8 @@ func (s *vSerSys) roundTrip(h []string) {
 	loaded := s.k.observe(dst)
 	if d := vObsDiff(after, loaded); d != "" {
 		s.c.Violation("reload-changed-answers", "", cfgS, h, d)
+	} else {
+		s.vBackToBack(cfgS, h, buf.Bytes(), loaded)
 	}
 	if len(s.live) > 0 {
 		s.c.Nontrivial(cfgS + "|" + s.k.canon(s.src))
